@@ -1,5 +1,6 @@
 //! @module src/dsyms.rs
 //! @property C02
+//! @also C05
 //! encodes: collect_orbits, PartialDSym::{new, from(SimpleDSet), from(PartialDSet), set_v, op, r, v, m,
 //!          is_complete}, SimpleDSym::{from_partial, from, op, r, v, m}, derived::{as_dset, as_partial_dsym,
 //!          as_dsym, build_set, build_sym_using_vs} — compiled from the current tree.
@@ -23,7 +24,7 @@ fn opt(x: usize) -> Option<usize> {
 }
 
 /// symbolic branching numbers, constant on (i,i+1)-orbits; vs[i][d-1]
-fn sym_vs<const N: usize, const D1: usize>(o: &Ops<N, D1>) -> [[usize; N]; D1] {
+pub(crate) fn sym_vs<const N: usize, const D1: usize>(o: &Ops<N, D1>) -> [[usize; N]; D1] {
     let mut vs = [[1usize; N]; D1];
     let mut i = 0;
     while i + 1 < D1 {
@@ -49,7 +50,7 @@ fn sym_vs<const N: usize, const D1: usize>(o: &Ops<N, D1>) -> [[usize; N]; D1] {
     vs
 }
 
-fn build_partial_dsym<const N: usize, const D1: usize>(o: &Ops<N, D1>, vs: &[[usize; N]; D1])
+pub(crate) fn build_partial_dsym<const N: usize, const D1: usize>(o: &Ops<N, D1>, vs: &[[usize; N]; D1])
     -> PartialDSym
 {
     let mut ds = PartialDSym::from(build_simple(o));
@@ -237,21 +238,21 @@ macro_rules! proofs {
     )*};
 }
 
-// @harness c02_partial_dsym_n2d2_values tier=quick unwind=5 block=64 mem=9 timeout=969
-// @harness c02_partial_dsym_n2d2_values_reach tier=quick unwind=5 block=64 mem=9 timeout=900 twin
-// @harness c02_partial_dsym_n2d2_symmetry tier=quick unwind=5 block=64 mem=13 timeout=1284
-// @harness c02_partial_dsym_n2d2_orbits tier=quick unwind=5 block=64 mem=14 timeout=1580
-// @harness c02_simple_dsym_n2d2_values tier=quick unwind=5 block=64 mem=9 timeout=900
-// @harness c02_simple_dsym_n2d2_values_reach tier=quick unwind=5 block=64 mem=9 timeout=900 twin
-// @harness c02_simple_dsym_n2d2_symmetry tier=quick unwind=5 block=64 mem=13 timeout=1324
-// @harness c02_simple_dsym_n2d2_orbits tier=quick unwind=5 block=64 mem=14 timeout=1547
-// @harness c02_collect_orbits_n2d2 tier=quick unwind=5 block=64 mem=8 timeout=900
-// @harness c02_collect_orbits_n2d2_reach tier=quick unwind=5 block=64 mem=7 timeout=900 twin
+// @harness c02_partial_dsym_n2d2_values tier=quick unwind=5 block=64 mem=11 timeout=1212
+// @harness c02_partial_dsym_n2d2_values_reach tier=quick unwind=5 block=64 mem=10 timeout=1200 twin
+// @harness c02_partial_dsym_n2d2_symmetry tier=quick unwind=5 block=64 mem=16 timeout=1606
+// @harness c02_partial_dsym_n2d2_orbits tier=quick unwind=5 block=64 mem=18 timeout=1975
+// @harness c02_simple_dsym_n2d2_values tier=quick unwind=5 block=64 mem=11 timeout=1200
+// @harness c02_simple_dsym_n2d2_values_reach tier=quick unwind=5 block=64 mem=10 timeout=1200 twin
+// @harness c02_simple_dsym_n2d2_symmetry tier=quick unwind=5 block=64 mem=16 timeout=1655
+// @harness c02_simple_dsym_n2d2_orbits tier=quick unwind=5 block=64 mem=18 timeout=1934
+// @harness c02_collect_orbits_n2d2 tier=quick unwind=5 block=64 mem=9 timeout=1200
+// @harness c02_collect_orbits_n2d2_reach tier=quick unwind=5 block=64 mem=9 timeout=1200 twin
 // @harness c02_collect_orbits_n3d2 tier=thorough unwind=6 block=128 mem=24 timeout=3000
-// @harness c02_conv_partial_dsym_n2d2 tier=quick unwind=5 block=64 mem=21 timeout=2742
-// @harness c02_conv_dset_n2d2 tier=quick unwind=5 block=64 mem=8 timeout=900
-// @harness c02_conv_dsym_n2d2 tier=quick unwind=5 block=64 mem=15 timeout=2094
-// @harness c02_conv_dsym_n2d2_reach tier=quick unwind=5 block=64 mem=14 timeout=936 twin
+// @harness c02_conv_partial_dsym_n2d2 tier=quick unwind=5 block=64 mem=27 timeout=3428
+// @harness c02_conv_dset_n2d2 tier=quick unwind=5 block=64 mem=9 timeout=1200
+// @harness c02_conv_dsym_n2d2 tier=quick unwind=5 block=64 mem=19 timeout=2618
+// @harness c02_conv_dsym_n2d2_reach tier=quick unwind=5 block=64 mem=17 timeout=1200 twin
 // @harness c02_partial_dsym_n3d2_values tier=thorough unwind=6 block=128 mem=28 timeout=3600
 // @harness c02_simple_dsym_n3d2_values tier=thorough unwind=6 block=128 mem=28 timeout=3600
 // @harness c02_simple_dsym_n2d3_values tier=thorough unwind=6 block=128 mem=28 timeout=3600
